@@ -136,7 +136,9 @@ impl Run {
             File::create(PathBuf::from(j)).expect("cannot create journal")
         });
         if matches!(mode, Mode::Explore | Mode::OnlyUnit(_)) {
-            // watchdog: no progress for HANG_SECS => exit 3 (the journal names the unit)
+            // watchdog: no progress for HANG_SECS => exit 3 (the journal names the unit); the driver
+            // raises the limit when it repeats a shard whose suspected unit ran fine in isolation
+            let hang_secs: u64 = std::env::var("VERIF_HANG_SECS").ok().and_then(|s| s.parse().ok()).unwrap_or(HANG_SECS);
             std::thread::Builder::new()
                 .name("verif watchdog".into())
                 .spawn(move || {
@@ -149,8 +151,8 @@ impl Run {
                         if cur != last {
                             last = cur;
                             since = Instant::now();
-                        } else if since.elapsed() > Duration::from_secs(HANG_SECS) {
-                            eprintln!("watchdog: no progress for {HANG_SECS}s");
+                        } else if since.elapsed() > Duration::from_secs(hang_secs) {
+                            eprintln!("watchdog: no progress for {hang_secs}s");
                             std::process::exit(3);
                         }
                     }
